@@ -17,6 +17,16 @@
 #endif
 #define NMC_MAIN
 #include "common.hpp"
+// Non-triviality rule (all ops): a case is non-trivial when the reference result differs from the source operand in shape or in
+// element order / count (joins and None-axis forms always are).
+// Audit extension (optional parameters / overloads / argument kinds that the cases above never passed): compress axis None; roll with a
+// scalar shift and a list axis, length-1 / length-3 / negatively spelled list axes; pad with the value omitted, with a real value on an
+// integer array (the library static_casts the value to the element type, NumPy casts the constant likewise: truncation), on a real array,
+// widths up to 3 all-asymmetric at rank 3; take with indices as a fixed array and as a 1-d ndarray; repeat with a fixed-array repeats and a
+// length-1 repeats (NumPy broadcasts it); tile with fixed-array / tuple-of-constants reps and reps two longer than the rank; stack with the
+// axis omitted and a compile-time axis; vstack / dstack / column_stack of operands of different rank (where NumPy allows it).
+// Not instantiated (rejected at compile time): roll(a, LIST shift) with axis None.  hstack of 1-d with 2-d raises in NumPy (not a valid input).
+using namespace nmtools::literals;
 
 const char* nmc_property() { return "C04"; }
 
@@ -27,6 +37,17 @@ void nmc_enumerate(const nmc::Tier& t, const nmc::Sink& emit) {
 #ifdef C04_STACK
         if (d <= 3) { for (long a = -(d + 1); a <= d; a++) emit(Case("stack", {s, {a}})); }
         emit(Case("hstack", {s})); emit(Case("vstack", {s})); emit(Case("dstack", {s})); if (d <= 2) emit(Case("column_stack", {s}));
+        // audit extension: axis omitted (default 0) and axis as a compile-time constant
+        if (d <= 3) { emit(Case("stack_default", {s})); for (long a = -(d + 1); a <= d; a++) emit(Case("stack_ct", {s, {a}})); }
+        // operands of different rank, both orders, where NumPy accepts the combination
+        if (d == 1) {
+            long n = s[0];
+            for (long m = 1; m <= e; m++) { emit(Case("vstack_mix", {s, {m, n}})); emit(Case("vstack_mix", {{m, n}, s})); }
+            for (long k = 1; k <= e; k++) { emit(Case("column_stack_mix", {s, {n, k}})); emit(Case("column_stack_mix", {{n, k}, s})); }
+            emit(Case("dstack_mix", {s, {1, n}})); emit(Case("dstack_mix", {{1, n}, s}));
+            for (long k = 1; k <= e; k++) { emit(Case("dstack_mix", {s, {1, n, k}})); emit(Case("dstack_mix", {{1, n, k}, s})); }
+        }
+        if (d == 2) for (long k = 1; k <= e; k++) { emit(Case("dstack_mix", {s, {s[0], s[1], k}})); emit(Case("dstack_mix", {{s[0], s[1], k}, s})); }
 #else
         // tile: reps 1..3 per axis, rep lists shorter, equal and longer (<= d+1) than the rank
         for (long k = 1; k <= std::min(d + 1, t.thorough() ? 5L : 4L); k++) {
@@ -64,6 +85,54 @@ void nmc_enumerate(const nmc::Tier& t, const nmc::Sink& emit) {
         // concatenate: second operand differing on the joined axis (extent 1..3), every axis and None
         for (long a = -d; a < d; a++) for (long m = 1; m <= 3; m++) { L s2(s); s2[(size_t)(a < 0 ? a + d : a)] = m; emit(Case("concatenate", {s, s2, {a}})); }
         emit(Case("concatenate_none", {s, s}));
+        // ---------------- audit extension (see the comment at the top); quick: small sub-grids of the menus above
+        bool T = t.thorough();
+        // compress, axis None (flattened source): every mask of length <= 3 (<= N), and a few full-length / nearly full-length patterns
+        if (d <= 3 || T) {
+            for (long k = 1; k <= std::min(N, 3L); k++) nmc::each_tuple((size_t)k, 0, 1, [&](const L& m) { bool any = false; for (long v : m) any |= v != 0; if (any) emit(Case("compress_none", {s, m})); });
+            if (N > 3) { L all((size_t)N, 1), last((size_t)N, 0), alt((size_t)N, 0), shortl((size_t)(N - 1), 0); last.back() = 1; shortl.back() = 1; for (long i = 1; i < N; i += 2) alt[(size_t)i] = 1;
+                emit(Case("compress_none", {s, all})); emit(Case("compress_none", {s, last})); emit(Case("compress_none", {s, alt})); if (N - 1 > 3) emit(Case("compress_none", {s, shortl})); }
+        }
+        // roll, SCALAR shift with a LIST axis: every non-empty axis subset, spelled ascending non-negative and descending negative
+        if (d <= 3 || T) {
+            L shifts = T ? L{-5, -4, -3, -2, -1, 0, 1, 2, 3, 4, 5} : (d <= 2 ? L{-4, -1, 1, 2, 5} : L{-4, 1, 2});
+            nmc::each_subset((int)d, [&](const L& sub) { if (sub.empty()) return; L neg(sub.rbegin(), sub.rend()); for (auto& v : neg) v -= d;
+                for (long sh : shifts) { emit(Case("roll_sl", {s, {sh}, sub})); emit(Case("roll_sl", {s, {sh}, neg})); } });
+        }
+        // roll, LIST shift with a LIST axis of the same length: length 1, length 3, and pairs with negatively spelled axes (list/list form of "roll")
+        if (d <= 2 || T) for (long a = -d; a < d; a++) { long n = s[(size_t)(a < 0 ? a + d : a)]; for (long sh = -n - 1; sh <= n + 1; sh++) emit(Case("roll", {s, {sh}, {a}})); }
+        if (d >= 2 && (d <= 3 || T)) for (long a = 0; a < d; a++) for (long b = 0; b < d; b++) if (a != b) {
+            if (d == 2 || T) for (long x : {-1L, 1L, 2L}) for (long y : {-1L, 1L, 2L}) { emit(Case("roll", {s, {x, y}, {a - d, b}})); emit(Case("roll", {s, {x, y}, {a, b - d}})); emit(Case("roll", {s, {x, y}, {a - d, b - d}})); }
+            else for (auto xy : {L{1, 2}, L{-1, 1}, L{2, -1}}) emit(Case("roll", {s, xy, {a - d, b - d}}));
+        }
+        if (d == 3 || (d == 4 && T)) { bool big = true; for (long v : s) big &= v >= 2; if (big) for (auto ax : {L{0, 1, 2}, L{2, 0, 1}, L{-1, -3, -2}}) nmc::each_tuple(3, 0, 2, [&](const L& q) { static const long menu[3] = {-1, 1, 2}; emit(Case("roll", {s, {menu[q[0]], menu[q[1]], menu[q[2]]}, ax})); }); }
+        // pad: value omitted (default 0); widths 0..2 at dim <= 2, all-asymmetric widths over {0,1,3} at rank 3 (two shapes)
+        if (d <= 2) nmc::each_tuple((size_t)(2 * d), 0, 2, [&](const L& pw) { emit(Case("pad_default", {s, pw})); });
+        if (d == 3 && (s == L{2, 3, 2} || s == L{1, 2, 3} || T)) nmc::each_tuple(6, 0, 2, [&](const L& q) {
+            static const long menu[3] = {0, 1, 3}; L pw(6); bool three = false; for (size_t i = 0; i < 6; i++) { pw[i] = menu[q[i]]; three |= pw[i] == 3; }
+            for (size_t i = 0; i < 3; i++) if (pw[i] == pw[i + 3]) return;
+            emit(Case("pad_default", {s, pw})); if (three && s == L{2, 3, 2}) emit(Case("pad", {s, pw})); });
+        // pad: a real value (v/2) on the integer array, and a real array with the value omitted / with an integer value
+        if (d <= 2 || T) nmc::each_tuple((size_t)(2 * d), 0, 1, [&](const L& pw) { long nz = 0; for (long v : pw) nz += v != 0; if (!nz || (d > 2 && nz > 2)) return;
+            for (long v2 : {5L, -5L, 1L}) emit(Case("pad_fval", {s, pw, {v2}})); emit(Case("pad_dbl_default", {s, pw})); emit(Case("pad_dbl_int", {s, pw, {3}})); });
+        // take: indices as a fixed array ("take_fa") and as a 1-d ndarray ("take_nd"), with an axis and with None
+        if (d <= 2 || T || s == L{2, 3, 2}) for (long a = -d; a < d; a++) {
+            long n = s[(size_t)(a < 0 ? a + d : a)];
+            auto two = [&](const L& ind) { emit(Case("take_fa", {s, ind, {a}})); emit(Case("take_nd", {s, ind, {a}})); };
+            nmc::each_tuple(1, -n, n - 1, two);
+            if (d == 1 || a >= 0 || T) nmc::each_tuple(2, -n, n - 1, two);
+            two(L{-1, 0, n - 1});
+        }
+        if (d <= 2 || T) { auto two = [&](const L& ind) { emit(Case("take_none_fa", {s, ind})); emit(Case("take_none_nd", {s, ind})); };
+            nmc::each_tuple(1, -N, N - 1, two); if (N <= 4 || T) nmc::each_tuple(2, -N, N - 1, [&](const L& ind) { if (N > 6 && std::labs(ind[0]) % 3 != 0) return; two(ind); }); two(L{-1, 0, N - 1}); }
+        // repeat: repeats as a fixed array (length = extent), and a length-1 repeats (list / fixed array) that NumPy broadcasts
+        if (d <= 2 || T) for (long a = -d; a < d; a++) { long n = s[(size_t)(a < 0 ? a + d : a)];
+            if (n <= 3 && (a >= 0 || a == -1)) nmc::each_tuple((size_t)n, 1, 3, [&](const L& reps) { emit(Case("repeat_fa", {s, reps, {a}})); });
+            for (long r = 1; r <= 3; r++) { emit(Case("repeat_l1", {s, {r}, {a}})); if (n > 1) emit(Case("repeat_fa1", {s, {r}, {a}})); } }
+        // tile: reps two longer than the rank (list), reps as a fixed array (length 1..d+2 <= 4), reps as a tuple of constants
+        if (d <= 2 || (T && d == 3)) nmc::each_tuple((size_t)(d + 2), 1, 2, [&](const L& reps) { emit(Case("tile", {s, reps})); });
+        if (d <= 2 || T) for (long k = 1; k <= std::min(d + 2, 4L); k++) nmc::each_tuple((size_t)k, 1, (k >= 3 ? 2 : 3), [&](const L& reps) { if (d > 2 && k > 2) { long big = 0; for (long v : reps) big += v > 1; if (big > 1) return; } emit(Case("tile_fa", {s, reps})); });
+        if (d <= 3 || T) for (auto reps : {L{2}, L{1, 3}, L{2, 1}, L{2, 1, 2}, L{1, 2, 1, 1}, L{2, 1, 1, 1, 3}}) emit(Case("tile_ct", {s, reps}));
 #endif
     });
 }
@@ -84,6 +153,23 @@ static ROpt np_dstack(const RArr& a0, const RArr& b0) {
 static ROpt np_column_stack(const RArr& a0, const RArr& b0) {
     auto col = [](const RArr& a) { RArr r = a; if (a.dim() == 1) r.shape = {a.shape[0], 1}; return r; };
     RArr a = col(a0), b = col(b0); long ax = 1; return ref::concatenate(a, b, &ax);
+}
+
+// ---- audit extension helpers: a run-time list as a fixed-size array (dispatch on the length), as a 1-d ndarray
+template <size_t N, typename T = int> static nmtools_array<T, N> to_fa(const L& v) { nmtools_array<T, N> r{}; for (size_t i = 0; i < N; i++) nm::at(r, i) = (T)v[i]; return r; }
+template <typename F> static Outcome with_fa(const L& v, F&& f) {
+    switch (v.size()) { case 1: return f(to_fa<1>(v)); case 2: return f(to_fa<2>(v)); case 3: return f(to_fa<3>(v)); case 4: return f(to_fa<4>(v)); }
+    nmc::die("with_fa: length outside 1..4");
+}
+static dyn_t<int> to_nd(const L& v) { dyn_t<int> r; r.resize(to_sl(L{(long)v.size()})); for (size_t i = 0; i < v.size(); i++) r.data_[i] = (int)v[i]; return r; }
+template <typename V> constexpr auto elem_tag() { using U = meta::remove_cvref_t<V>; if constexpr (meta::is_maybe_v<U>) return elem_tag<meta::get_maybe_type_t<U>>(); else return meta::as_value_v<meta::get_element_type_t<U>>; }
+template <typename V, typename E> constexpr bool elem_is = std::is_same_v<meta::type_t<decltype(elem_tag<V>())>, E>;
+// both() plus: the element TYPE of the view and of the evaluated array is E (pad must keep the source's element type whatever the type of the value)
+template <typename E, typename V, typename A> static Outcome both_typed(const V& lazy, const A& eager, const ROpt& want, bool nontriv) {
+    Outcome o = both(lazy, eager, want, nontriv); if (!o.fail.empty()) return o;
+    if (!elem_is<V, E>) return Outcome::bad("wrong", "view: element type differs from the source array's element type", nontriv, o.outcome);
+    if (!elem_is<A, E>) return Outcome::bad("wrong", "array: element type differs from the source array's element type", nontriv, o.outcome);
+    return o;
 }
 
 Outcome nmc_execute(const Case& c) {
@@ -109,9 +195,46 @@ Outcome nmc_execute(const Case& c) {
         return o;
     }
     if (op == "concatenate") { RArr r2 = RArr::iota(c.a[1], 100); auto b = make_arr<long>(c.a[1], 100); long ax = c.a[2][0]; ROpt w = ref::concatenate(r, r2, &ax); return both(view::concatenate(a, b, (int)ax), na::concatenate(a, b, (int)ax), w, true); }
+    // ---------------- audit extension
+    if (op == "compress_none") { nmtools_list<bool> m; for (long v : c.a[1]) m.push_back(v != 0); ROpt w = ref::compress(r, c.a[1], nullptr); return both(view::compress(m, a, nm::None), na::compress(m, a, nm::None), w, true); }
+    if (op == "roll_sl") { int sh = (int)c.a[1][0]; auto ax = to_il(c.a[2]); ROpt w = ref::roll(r, c.a[1], &c.a[2]); return both(view::roll(a, sh, ax), na::roll(a, sh, ax), w, w && w->data != r.data); }
+    if (op == "pad_default" || op == "pad_fval" || op == "pad_dbl_default" || op == "pad_dbl_int") {
+        size_t d = s.size(); L before(c.a[1].begin(), c.a[1].begin() + d), after(c.a[1].begin() + d, c.a[1].end()); auto pw = to_il(c.a[1]);
+        if (op == "pad_default") { ROpt w = ref::pad(r, before, after, 0); return both_typed<long>(view::pad(a, pw), na::pad(a, pw), w, w && w->size() > r.size()); }
+        if (op == "pad_fval") { double v = (double)c.a[2][0] / 2.0; ROpt w = ref::pad(r, before, after, std::trunc(v)); return both_typed<long>(view::pad(a, pw, v), na::pad(a, pw, v), w, true); }
+        auto ad = make_arr<double>(s); for (size_t i = 0; i < r.data.size(); i++) { r.data[i] += 0.25; ad.data_[i] += 0.25; }
+        if (op == "pad_dbl_default") { ROpt w = ref::pad(r, before, after, 0); return both_typed<double>(view::pad(ad, pw), na::pad(ad, pw), w, true); }
+        int v = (int)c.a[2][0]; ROpt w = ref::pad(r, before, after, (double)v); return both_typed<double>(view::pad(ad, pw, v), na::pad(ad, pw, v), w, true);
+    }
+    if (op == "take_fa") { long ax = c.a[2][0]; ROpt w = ref::take(r, c.a[1], &ax); return with_fa(c.a[1], [&](auto ind) { return both(view::take(a, ind, (int)ax), na::take(a, ind, (int)ax), w, w && (w->shape != r.shape || w->data != r.data)); }); }
+    if (op == "take_nd") { long ax = c.a[2][0]; ROpt w = ref::take(r, c.a[1], &ax); auto ind = to_nd(c.a[1]); return both(view::take(a, ind, (int)ax), na::take(a, ind, (int)ax), w, w && (w->shape != r.shape || w->data != r.data)); }
+    if (op == "take_none_fa") { ROpt w = ref::take(r, c.a[1], nullptr); return with_fa(c.a[1], [&](auto ind) { return both(view::take(a, ind, nm::None), na::take(a, ind, nm::None), w, true); }); }
+    if (op == "take_none_nd") { ROpt w = ref::take(r, c.a[1], nullptr); auto ind = to_nd(c.a[1]); return both(view::take(a, ind, nm::None), na::take(a, ind, nm::None), w, true); }
+    if (op == "repeat_fa" || op == "repeat_fa1") { long ax = c.a[2][0]; ROpt w = ref::repeat(r, c.a[1], &ax); return with_fa(c.a[1], [&](auto reps) { return both(view::repeat(a, reps, (int)ax), na::repeat(a, reps, (int)ax), w, w && w->size() > r.size()); }); }
+    if (op == "repeat_l1") { long ax = c.a[2][0]; ROpt w = ref::repeat(r, c.a[1], &ax); auto reps = to_il(c.a[1]); return both(view::repeat(a, reps, (int)ax), na::repeat(a, reps, (int)ax), w, w && w->size() > r.size()); }
+    if (op == "tile_fa") { ROpt w = ref::tile(r, c.a[1]); return with_fa(c.a[1], [&](auto reps) { return both(view::tile(a, reps), na::tile(a, reps), w, w && w->size() > r.size()); }); }
+    if (op == "tile_ct") {
+        const L& q = c.a[1]; ROpt w = ref::tile(r, q); auto go = [&](auto reps) { return both(view::tile(a, reps), na::tile(a, reps), w, w && w->size() > r.size()); };
+        if (q == L{2}) return go(nmtools_tuple{2_ct}); if (q == L{1, 3}) return go(nmtools_tuple{1_ct, 3_ct}); if (q == L{2, 1}) return go(nmtools_tuple{2_ct, 1_ct});
+        if (q == L{2, 1, 2}) return go(nmtools_tuple{2_ct, 1_ct, 2_ct}); if (q == L{1, 2, 1, 1}) return go(nmtools_tuple{1_ct, 2_ct, 1_ct, 1_ct}); if (q == L{2, 1, 1, 1, 3}) return go(nmtools_tuple{2_ct, 1_ct, 1_ct, 1_ct, 3_ct});
+        nmc::die("tile_ct: reps not in the compile-time menu");
+    }
     if (op == "concatenate_none") { RArr r2 = RArr::iota(c.a[1], 100); auto b = make_arr<long>(c.a[1], 100); ROpt w = ref::concatenate(r, r2, nullptr); return both(view::concatenate(a, b, nm::None), na::concatenate(a, b, nm::None), w, true); }
 #else
+    if (op == "vstack_mix" || op == "dstack_mix" || op == "column_stack_mix") {   // audit extension: operands of different rank
+        RArr rb = RArr::iota(c.a[1], 100); auto bb = make_arr<long>(c.a[1], 100);
+        if (op == "vstack_mix") return both(view::vstack(a, bb), na::vstack(a, bb), np_vstack(r, rb), true);
+        if (op == "dstack_mix") return both(view::dstack(a, bb), na::dstack(a, bb), np_dstack(r, rb), true);
+        return both(view::column_stack(a, bb), na::column_stack(a, bb), np_column_stack(r, rb), true);
+    }
     RArr r2 = RArr::iota(s, 100); auto b = make_arr<long>(s, 100);
+    if (op == "stack_default") { ROpt w = ref::stack({r, r2}, 0); return both(view::stack(a, b), na::stack(a, b), w, true); }   // axis omitted
+    if (op == "stack_ct") {   // axis as a compile-time constant
+        long ax = c.a[1][0]; ROpt w = ref::stack({r, r2}, ax); auto go = [&](auto axis) { return both(view::stack(a, b, axis), na::stack(a, b, axis), w, true); };
+        switch (ax) { case 0: return go(0_ct); case 1: return go(meta::ct_v<1>); case 2: return go(2_ct); case 3: return go(3_ct);
+                      case -1: return go("-1"_ct); case -2: return go("-2"_ct); case -3: return go("-3"_ct); case -4: return go("-4"_ct); }
+        nmc::die("stack_ct: axis not in the compile-time menu");
+    }
     if (op == "stack") { long ax = c.a[1][0]; ROpt w = ref::stack({r, r2}, ax); return both(view::stack(a, b, (int)ax), na::stack(a, b, (int)ax), w, true); }
     if (op == "hstack") return both(view::hstack(a, b), na::hstack(a, b), np_hstack(r, r2), true);
     if (op == "vstack") return both(view::vstack(a, b), na::vstack(a, b), np_vstack(r, r2), true);
